@@ -99,6 +99,8 @@ func init() {
 		Variants: []Variant{
 			{Name: "duplicate-id", File: pkgState + "/register.go",
 				Old: "\tConfig.ServerBound.Register(&config.KnownPacks{},\n\t\tm(0x07, version.Minecraft_1_20_5),", New: "\tConfig.ServerBound.Register(&config.KnownPacks{},\n\t\tm(0x06, version.Minecraft_1_20_5),", Expect: "id-unique"},
+			{Name: "version-boundary-slip-1-12", File: pkgState + "/register.go",
+				Old: "m(0x2E, version.Minecraft_1_12_1)", New: "m(0x2E, version.Minecraft_1_12)", Expect: "reference-ids"},
 			{Name: "wrong-id-764", File: pkgState + "/register.go",
 				Old: "\tConfig.ServerBound.Register(&p.KeepAlive{},\n\t\tm(0x03, version.Minecraft_1_20_2),", New: "\tConfig.ServerBound.Register(&p.KeepAlive{},\n\t\tm(0x06, version.Minecraft_1_20_2),", Expect: "gomc-764"},
 			{Name: "mappings-out-of-order", File: pkgState + "/register.go",
@@ -146,6 +148,7 @@ func runC06(c *Ctx) {
 		c.Undecided("table", "dsl", p)
 	}
 	c.Info["registrations"] = len(regs)
+	checkGoldenIDs(c, regs, vt)
 	if len(regs) < 85 {
 		c.Undecided("table", "registrations", fmt.Sprintf("expected ≥85 Register calls, evaluated %d", len(regs)))
 	}
